@@ -16,6 +16,7 @@ AMBIGUOUS = {'__init__', '__new__', 'serialize', 'deserialize', 'stream_serializ
              'close', '__del__', 'call', 'sign_compact'}
 
 RETURNS_INSTANCE = ('from_', 'deserialize', 'stream_deserialize')
+BUILTIN_METHODS = set(dir(list)) | set(dir(dict)) | set(dir(set)) | set(dir(bytes)) | set(dir(str)) | set(dir(int)) | set(dir(bytearray))
 
 
 class Target(object):
@@ -166,6 +167,8 @@ class Resolver(object):
                     return [Target(cur.nested[f.id], ctx, 'closure')]
                 cur = cur.parent
             if class_args and f.id in class_args:
+                if isinstance(class_args[f.id], FunctionInfo):
+                    return [Target(class_args[f.id], ctx, 'closure')]
                 return self.constructor(class_args[f.id])
             t = lt.get(f.id)
             if t and t[0] == 'cls':
@@ -197,7 +200,7 @@ class Resolver(object):
                 if tgt is None:
                     return []  # object / builtin base
                 return [Target(tgt, base, 'super')]
-            if class_args and isinstance(recv, ast.Name) and recv.id in class_args:
+            if class_args and isinstance(recv, ast.Name) and recv.id in class_args and isinstance(class_args[recv.id], ClassInfo):
                 tgt = repo.lookup_method(class_args[recv.id], meth)
                 return [Target(tgt, class_args[recv.id], 'unbound')] if tgt else []
             t = self.expr_type(recv, fi, ctx, lt)
@@ -230,6 +233,8 @@ class Resolver(object):
             defs = self.by_name.get(meth)
             if not defs:
                 return []
+            if meth in BUILTIN_METHODS:
+                return []  # list/dict/set/bytes/str/int method on a receiver of unknown type
             if meth in AMBIGUOUS:
                 return None
             fam = self._family(defs)
